@@ -123,7 +123,8 @@ Inductive status := Done | Stuck | OutOfFuel.
    text `found` by which pos advances *)
 Definition item : Type := option tok * str.
 
-Fixpoint loop (fuel F : nat) (full doc : bool) (s : str) (line col : N)
+(* [afS]: the last token yielded is S and only comments were dropped since *)
+Fixpoint loop (fuel F : nat) (full doc afS : bool) (s : str) (line col : N)
   : list item * status :=
   match fuel with
   | O => ([], OutOfFuel)
@@ -132,7 +133,7 @@ Fixpoint loop (fuel F : nat) (full doc : bool) (s : str) (line col : N)
     | [] => (if full then [(Some (mkTok T_EOF [] line col), [])] else [], Done)
     | c :: t =>
       if mem_char c fastchars then
-        let (r, st) := loop fu F full doc t line (col + 1) in
+        let (r, st) := loop fu F full doc false t line (col + 1) in
         ((Some (mkTok T_CHAR [c] line col), [c]) :: r, st)
       else
         match scan_prods F full doc (tl productions) s with
@@ -145,8 +146,10 @@ Fixpoint loop (fuel F : nat) (full doc : bool) (s : str) (line col : N)
           let (name1, found1) := complete F full name0 found0 s in
           let '(name, found, value) := classify name1 found1 s in
           let (line', col') := advance line col found in
-          let (r, st) := loop fu F full doc (skipn (length found) s) line' col' in
-          ((if doc || negb (tokty_eqb name T_COMMENT)
+          let emit := doc || negb (tokty_eqb name T_COMMENT) in
+          let afS' := if emit then tokty_eqb name T_S else afS in
+          let (r, st) := loop fu F full doc afS' (skipn (length found) s) line' col' in
+          ((if emit && negb (afS && tokty_eqb name T_S)
             then Some (mkTok name value line col) else None, found) :: r, st)
         end
     end
@@ -168,7 +171,7 @@ Definition tokenize_items (text : str) (full doc : bool) : list item * status :=
     then ([(Some (mkTok T_CHARSET_SYM s_charset_sp 1 1), s_charset_sp)],
           skipn (length s_charset_sp) s1, 1 + Nlen s_charset_sp)
     else ([], s1, 1) in
-  let (r, st) := loop (S (length s2)) F full doc s2 1 col2 in
+  let (r, st) := loop (S (length s2)) F full doc false s2 1 col2 in
   (bom ++ cs ++ r, st).
 
 Fixpoint toks_of (l : list item) : list tok :=
